@@ -370,7 +370,7 @@ def _gen_list(draw, spec, mut):
                 v = pad + body
             else:
                 off = draw(st.integers(0, len(pad)))
-                if len(body) >= 2 and draw(st.integers(0, 2)) == 0:
+                if len(body) >= 2 and model._len_ok(lf, len(pad) + 2 * len(body)) and draw(st.integers(0, 2)) == 0:
                     # a decoy before the real window: the window's beginning followed by something else
                     # (a partial match that a window search must not stop at)
                     pad = pad[:off] + body[:-1] + [draw(junk_scalar)] + pad[off:]
